@@ -117,10 +117,11 @@ def families(tier, seed):
     nv = 1 if tier == 'quick' else 3
     for ka in KINDS:
         for kb in KINDS:
-            for v in range(nv if not (ka == kb == 'ConvexPolygon') else 4):
+            for v in range(4 if ka == kb == 'ConvexPolygon' else max(nv, 2) if ka == kb == 'Plane' else nv):
                 vv = v if (tier != 'quick' or ka == kb == 'ConvexPolygon') else (KINDS.index(ka) + KINDS.index(kb)) % 3
                 if tier == 'quick' and ka == kb == 'Plane':
-                    vv = 0       # the tilt template of two planes in the oblique frame needs the thorough budget
+                    vv = (0, 2)[v]       # parallel planes; crossing planes with normals at an obtuse angle (axis frame); the tilt
+                    #                      templates in the oblique frame need the thorough budget
                 fams.append(Family('%s-%s/v%d' % (ka, kb, vv), fam_pair, (ka, kb, vv)))
     return fams
 
